@@ -10,6 +10,7 @@ From Coq Require Import ZArith List Bool.
 Import ListNotations.
 Require Import Grist.Lib.PyPrelude Grist.Lib.PyList Grist.Model.Moment GristGen.Moment_gen Grist.Model.MomentTz.
 Require Import GristGen.Tzdata_gen Grist.Proofs.Moment_proofs Grist.Proofs.MomentData_proofs.
+Require Import Grist.Model.MomentDt GristGen.MomentDt_gen Grist.Proofs.Moment_bridge.
 Open Scope Z_scope.
 
 (* 1. A zone that passes the boolean check round-trips every instant: timestamp -> local datetime (with the
@@ -98,6 +99,76 @@ Theorem C34_oob_irrelevant : forall z, In z bundled_zones -> forall oob1 oob2 L 
   zone_index oob1 z ts = zone_index oob2 z ts /\
   zone_offset oob1 z ts = zone_offset oob2 z ts.
 Proof. intros z Hin. apply oob_irrelevant. apply bundled_zone_ok. exact Hin. Qed.
+
+(* ---- the datetime-level code itself ---------------------------------------------------------------- *)
+(* GristGen.MomentDt_gen is translated from moment.py on every run by harness/mo2v.py (utc_to_ts_ms,
+   TzInfo.utcoffset, TzInfo.fromutc, ts_to_dt, dt_to_ts, ts_to_date, date_to_ts; CPython's datetime arithmetic is
+   the primitive vocabulary of Model/MomentDt.v).  8. Pointwise bridges: generated function = hand model. *)
+Theorem C34_bridge_utc_to_ts_ms : forall oob d, moment_utc_to_ts_ms oob d = py_utc_to_ts_ms (d_naive d).
+Proof. exact bridge_utc_to_ts_ms. Qed.
+Theorem C34_bridge_utcoffset : forall oob z f d,
+  TzInfo_utcoffset oob (mk_tz z f) d = zone_dt_offset oob z (d_naive d) f.
+Proof. exact bridge_utcoffset. Qed.
+Theorem C34_bridge_fromutc : forall oob z f d,
+  TzInfo_fromutc oob (mk_tz z f) d = aware z (tz_fromutc oob z (d_naive d)).
+Proof. exact bridge_fromutc. Qed.
+Theorem C34_bridge_ts_to_dt : forall oob ts z z0 f,
+  moment_ts_to_dt oob ts z None = aware z (ts_to_dt oob ts z) /\
+  moment_ts_to_dt oob ts z0 (Some (mk_tz z f)) = aware z (ts_to_dt oob ts z).
+Proof. intros. split; [apply bridge_ts_to_dt | apply bridge_ts_to_dt_tzinfo]. Qed.
+Theorem C34_bridge_dt_to_ts : forall oob z a L f tzopt,
+  moment_dt_to_ts oob (aware z a) tzopt = dt_to_ts oob z a /\
+  moment_dt_to_ts oob (mk_dt L (Some (mk_tz z f))) tzopt = local_to_ts oob z L f /\
+  moment_dt_to_ts oob (mk_dt L None) (Some z) = local_to_ts oob z L None /\
+  moment_dt_to_ts oob (mk_dt L None) None = L.
+Proof.
+  intros. split; [apply bridge_dt_to_ts_aware|]. split; [apply bridge_dt_to_ts_tz|]. apply bridge_dt_to_ts_naive.
+Qed.
+Theorem C34_bridge_dates : forall oob d ts z,
+  moment_ts_to_date oob ts = ts_to_date ts /\ moment_date_to_ts oob d None = date_to_ts d /\
+  moment_date_to_ts oob d (Some z) = date_to_ts_zone oob d z.
+Proof.
+  intros. split; [apply bridge_ts_to_date|]. split; [apply bridge_date_to_ts | apply bridge_date_to_ts_zone].
+Qed.
+(* the module constant TZ_UTC of the model is the bundled zone 'UTC' *)
+Theorem C34_utc_zone_is_bundled : tz_UTC = utc_zone.
+Proof. vm_compute. reflexivity. Qed.
+
+(* 9. The property about the generated functions.  dt_to_ts(ts_to_dt(ts, zone)) = ts: *)
+Theorem C34_code_roundtrip : forall z, In z bundled_zones -> forall oob ts tzopt,
+  moment_dt_to_ts oob (moment_ts_to_dt oob ts z None) tzopt = ts.
+Proof. intros z Hin. apply code_roundtrip. apply bundled_zone_ok. exact Hin. Qed.
+
+(* ts_to_date(date_to_ts(d)) = d, and for every instant of that UTC day *)
+Theorem C34_code_date_roundtrip : forall oob d, moment_ts_to_date oob (moment_date_to_ts oob d None) = d.
+Proof. exact code_date_roundtrip. Qed.
+Theorem C34_code_date_of_instant : forall oob d s, 0 <= s < TICKS_PER_DAY ->
+  moment_ts_to_date oob (moment_date_to_ts oob d None + s) = d.
+Proof. exact code_date_of_instant. Qed.
+
+(* ts_to_dt(date_to_ts(d, zone), zone).date() = d for every date that exists in the zone; local midnight exactly
+   unless it is skipped *)
+Theorem C34_code_date_zone_roundtrip : forall z, In z bundled_zones -> forall oob d,
+  date_exists z d = true ->
+  let t := moment_date_to_ts oob d (Some z) in
+  py_dt_date (moment_ts_to_dt oob t z None) = d /\
+  (d_naive (moment_ts_to_dt oob t z None) = moment_date_to_ts oob d None \/
+   forall ts, d_naive (moment_ts_to_dt oob ts z None) <> moment_date_to_ts oob d None).
+Proof.
+  intros z Hin. apply code_date_zone_roundtrip; [apply bundled_zone_ok | apply bundled_zone_date_ok]; exact Hin.
+Qed.
+
+(* the offset datetime.utcoffset() reports for a local time carrying tzinfo(zone, favor), and the instant
+   dt_to_ts maps it to: as C34_local_offset_is_adjacent *)
+Theorem C34_code_local_offset_is_adjacent : forall z, In z bundled_zones -> forall oob L f,
+  let d := mk_dt L (Some (py_get_tzinfo z f)) in
+  let r := zone_index_dt oob z L f in
+  let t := moment_dt_to_ts oob d None in
+  py_dt_utcoffset oob d = Some (E z r) /\ 0 <= r <= nZ z /\
+  ((in_interval z r t /\ d_naive (moment_ts_to_dt oob t z None) = L) \/
+   (1 <= r /\ in_interval z (r - 1) t /\ OU z (r - 1) <= L < TH z (r - 1) /\
+    forall ts, d_naive (moment_ts_to_dt oob ts z None) <> L)).
+Proof. intros z Hin. apply code_local_offset_is_adjacent. apply bundled_zone_ok. exact Hin. Qed.
 
 (* ---- non-vacuity ---------------------------------------------------------------------------------- *)
 
